@@ -157,4 +157,164 @@ theorem rescaleCoords_length (c : Q) (inds : List Nat) : ∀ (coords : List (Lis
   | [], _ => by simp [rescaleCoords]
   | _ :: rest, k0 => by simp [rescaleCoords, rescaleCoords_length c inds rest (k0 + 1)]
 
+/-! ### invariants of a constructed graph -/
+
+theorem isErrField_iff (f : Name) : isErrField f = true ↔ ∃ rest, f = errorPrefix ++ rest := by
+  simp only [isErrField, List.isPrefixOf_iff_prefix]
+  constructor
+  · rintro ⟨t, ht⟩; exact ⟨t, ht.symm⟩
+  · rintro ⟨t, ht⟩; exact ⟨t, ht.symm⟩
+
+theorem errorPrefix_length : errorPrefix.length = 6 := by decide
+
+/-- an error field cannot be its own coordinate -/
+theorem errMatches_self_false (f : Name) (hf : isErrField f = true) : errMatches (f.drop 6) f = false := by
+  obtain ⟨rest, rfl⟩ := (isErrField_iff f).1 hf
+  have hd : (errorPrefix ++ rest).drop 6 = rest := by
+    rw [← errorPrefix_length, List.drop_left]
+  rw [hd]
+  simp only [errMatches, Bool.or_eq_false_iff]
+  constructor
+  · apply Bool.eq_false_iff.2
+    intro h
+    have := congrArg List.length (eq_of_beq h)
+    simp [errorPrefix_length] at this
+  · apply Bool.eq_false_iff.2
+    intro h
+    have := (List.isPrefixOf_iff_prefix.1 h).length_le
+    simp [errorPrefix_length] at this
+    omega
+
+/-- what `graph.__init__` establishes -/
+structure GraphInv (g : Graph) : Prop where
+  names_len : g.fieldNames.length = g.coords.length
+  dim_pos : 1 ≤ g.dim
+  dim_parsed : g.dim + g.parsed.length = g.fieldNames.length
+  coord_fields : ∀ c ∈ g.fieldNames.take g.dim, isErrField c = false
+  error_fields : ∀ f ∈ g.fieldNames.drop g.dim, isErrField f = true
+  parsed_spec : ∀ (k : Nat) (f : Name), g.fieldNames[g.dim + k]? = some f →
+    ∃ p, g.parsed[k]? = some p ∧ p.ind = g.dim + k ∧
+      (g.fieldNames.take g.dim).filter (errMatches (f.drop 6)) = [p.coord]
+
+theorem mkGraph_inv (coords : List (List Q)) (fn : FieldNamesArg) (sc : Option Q) (g : Graph)
+    (h : mkGraph coords fn sc = .ok g) :
+    GraphInv g ∧ g.coords = coords ∧ g.scale = sc ∧ fieldNamesTuple fn = .ok g.fieldNames ∧ coords ≠ [] ∧
+      sameLengths coords = true ∧ hasDuplicates g.fieldNames = false := by
+  unfold mkGraph at h
+  by_cases hc : coords.isEmpty = true
+  · simp [hc] at h
+  by_cases hs : sameLengths coords = true
+  case neg => simp [hc, hs] at h
+  cases hn : fieldNamesTuple fn with
+  | error e => simp [hc, hs, hn, bind, Except.bind] at h
+  | ok names =>
+    by_cases hl : names.length = coords.length
+    case neg => simp [hc, hs, hn, hl, bind, Except.bind] at h
+    by_cases hd : hasDuplicates names = true
+    · simp [hc, hs, hn, hl, hd, bind, Except.bind] at h
+    cases hp : parseErrorNames names with
+    | error e => simp [hc, hs, hn, hl, hd, hp, bind, Except.bind] at h
+    | ok parsed =>
+      simp [hc, hs, hn, hl, hd, hp, bind, Except.bind, pure, Except.pure] at h
+      subst h
+      have hcne : coords ≠ [] := by simpa using hc
+      refine ⟨?_, rfl, rfl, rfl, hcne, hs, by simpa using hd⟩
+      -- the parse
+      unfold parseErrorNames at hp
+      cases hsf : splitFields names 0 false 0 with
+      | error e => simp [hsf, bind, Except.bind] at hp
+      | ok q =>
+        obtain ⟨errors, lc⟩ := q
+        simp only [hsf, bind, Except.bind] at hp
+        obtain ⟨cs, es, h1, h2, h3, h4, h5⟩ := splitFields_spec names 0 0 errors lc hsf
+        obtain ⟨p1, p2⟩ := parseErrs_spec _ _ _ hp
+        have hnl : names.length ≠ 0 := by
+          rw [hl]; simpa using hcne
+        -- there is at least one coordinate field
+        have hcs : cs ≠ [] := by
+          intro hcs
+          subst hcs
+          simp only [List.nil_append] at h1
+          simp at h4 h5
+          rw [h1] at hnl hp p2
+          cases hes : es with
+          | nil => simp [hes] at hnl
+          | cons f rest =>
+            subst h5
+            subst h4
+            subst hes
+            obtain ⟨p, _, _, hp3⟩ := p2 0 f 0 (by simp [List.zipIdx_cons])
+            have hm := errMatches_self_false f (h3 f List.mem_cons_self)
+            simp [hm] at hp3
+        have hlc : lc + 1 = cs.length := by
+          have : cs.length ≠ 0 := by simpa using hcs
+          simp [hcs] at h5; omega
+        have htake : names.take (lc + 1) = cs := by rw [hlc, h1, List.take_left]
+        have hplen : parsed.length = es.length := by simp [p1, h4]
+        have hdim : coords.length - parsed.length = cs.length := by rw [← hl]; simp [h1, hplen]
+        have hcspos : 1 ≤ cs.length := by
+          have : cs.length ≠ 0 := by simpa using hcs
+          omega
+        refine ⟨hl, ?_, ?_, ?_, ?_, ?_⟩
+        · simp only [hdim]; exact hcspos
+        · simp only [hdim]; simp [h1, hplen]
+        · simp only [hdim]; rw [h1, List.take_left]; exact h2
+        · simp only [hdim]; rw [h1, List.drop_left]; exact h3
+        · intro k f hf
+          simp only [hdim] at hf ⊢
+          have hes : es[k]? = some f := by
+            rw [h1, List.getElem?_append_right (by omega)] at hf
+            simpa using hf
+          have herr : errors[k]? = some (f, cs.length + k) := by
+            rw [h4]
+            simp [List.getElem?_zipIdx, hes]
+          obtain ⟨p, hp1, hp2, hp3⟩ := p2 k f (cs.length + k) herr
+          rw [htake] at hp3
+          refine ⟨p, hp1, hp2, ?_⟩
+          rw [h1, List.take_left]
+          exact hp3
+
+/-! ### `zip(*coords)` and the column-wise `append` of `hist_to_graph` -/
+
+theorem zipRows_length (m : Nat) : ∀ (cols : List (List Q)), cols ≠ [] → (∀ c ∈ cols, c.length = m) →
+    (zipRows cols).length = m
+  | [], h, _ => absurd rfl h
+  | [c], _, hm => by simp [zipRows, hm c (by simp)]
+  | c :: c' :: cs, _, hm => by
+    have ih := zipRows_length m (c' :: cs) (by simp) (fun x hx => hm x (List.mem_cons_of_mem _ hx))
+    simp [zipRows, ih, hm c (by simp)]
+
+theorem zipRows_appendRow (m : Nat) : ∀ (cols : List (List Q)) (row : List Q), cols ≠ [] →
+    cols.length = row.length → (∀ c ∈ cols, c.length = m) →
+    zipRows (appendRow cols row) = zipRows cols ++ [row] ∧ (∀ c ∈ appendRow cols row, c.length = m + 1) ∧
+      (appendRow cols row).length = cols.length
+  | [], _, h, _, _ => absurd rfl h
+  | [_], [], _, hl, _ => by simp at hl
+  | [c], [v], _, _, hm => by
+    simp [appendRow, zipRows, hm c (by simp)]
+  | [_], _ :: _ :: _, _, hl, _ => by simp at hl
+  | _ :: _ :: _, [], _, hl, _ => by simp at hl
+  | c :: c' :: cs, v :: vs, _, hl, hm => by
+    obtain ⟨ih1, ih2, ih3⟩ := zipRows_appendRow m (c' :: cs) vs (by simp) (by simpa using hl)
+      (fun x hx => hm x (List.mem_cons_of_mem _ hx))
+    have hc : c.length = m := hm c (by simp)
+    have hz : (zipRows (c' :: cs)).length = m :=
+      zipRows_length m (c' :: cs) (by simp) (fun x hx => hm x (List.mem_cons_of_mem _ hx))
+    refine ⟨?_, ?_, by simp [appendRow, ih3]⟩
+    · -- the tail of `appendRow` is again a non-empty list of columns
+      have hne : appendRow (c' :: cs) vs ≠ [] := by
+        intro h0; rw [h0] at ih3; simp at ih3
+      cases hap : appendRow (c' :: cs) vs with
+      | nil => exact absurd hap hne
+      | cons d ds =>
+        simp only [appendRow, hap, zipRows]
+        rw [← hap, ih1]
+        rw [List.zipWith_append (by rw [hc, hz])]
+        simp
+    · intro x hx
+      simp only [appendRow, List.mem_cons] at hx
+      rcases hx with rfl | hx
+      · simp [hc]
+      · exact ih2 x hx
+
 end Lena.C12
